@@ -419,9 +419,17 @@ class Ctx:
     def coqchk(self):
         """thorough tier: re-check the compiled property file and everything it depends on with the
         independent checker and record the axiom summary it prints"""
+        # coqchk takes minutes: run it on a private snapshot of the compiled tree so that the shared
+        # build lock is held only while copying
+        snap = os.path.join(BUILD, "chk_%s_%d" % (self.pid, os.getpid()))
+        shutil.rmtree(snap, ignore_errors=True)
+        os.makedirs(snap)
         with Lock("coq"):
-            rc, o, e = sh(["coqchk", "-silent", "-o", "-Q", "theories", "BX", "-Q", "gen", "BXGen",
-                           "BX.Properties." + self.pid], cwd=COQ, timeout=6 * 3600)
+            subprocess.run(["rsync", "-a", "--include", "*/", "--include", "*.vo", "--exclude", "*",
+                            os.path.join(COQ, "theories"), os.path.join(COQ, "gen"), snap + "/"], check=True)
+        rc, o, e = sh(["coqchk", "-silent", "-o", "-Q", "theories", "BX", "-Q", "gen", "BXGen",
+                       "BX.Properties." + self.pid], cwd=snap, timeout=6 * 3600)
+        shutil.rmtree(snap, ignore_errors=True)
         txt = o + e
         m = re.search(r"CONTEXT SUMMARY.*", txt, re.S)
         summary = re.sub(r"\s+", " ", m.group(0)) if m else txt[-800:]
